@@ -129,7 +129,14 @@ def extract_iter(
                         types.GeneratorType,
                         types.AsyncGeneratorType,
                     ),
+                ) or current is not (
+                    getattr(origin, "cr_frame", None)
+                    or getattr(origin, "gi_frame", None)
+                    or getattr(origin, "ag_frame", None)
                 ):
+                    # Only claim a generator-ish origin for its own frame; the
+                    # callees of a running coroutine/generator are not something
+                    # that extract_outermost(origin) would return
                     origin = None
                 current = Frame(pyframe=current, origin=origin)
             if isinstance(current, Frame):
